@@ -1,7 +1,7 @@
 (* C12 — partition consumer: the shutdown terminates. *)
 From Coq Require Import List Arith Bool Lia.
 From SV Require Import C12.Lts C12.LtsProofs C12.Tac C12.ConnProofs C12.PCons C12.PConsProofs C12.PConsSafety C12.PConsTerm C12.PConsProgress
-  C12.PConsMeasure C12.PConsMeasureA C12.PConsMeasureB C12.PConsMeasureC C12.PConsMeasureD.
+  C12.PConsMeasure C12.PConsMeasure_01 C12.PConsMeasure_02 C12.PConsMeasure_03 C12.PConsMeasure_04 C12.PConsMeasure_05 C12.PConsMeasure_06 C12.PConsMeasure_07.
 Import ListNotations.
 
 Module PCTerm.
